@@ -151,7 +151,22 @@ def build(c):
                                                                            int(susp['handler']) if e['key'] is None else 0)
                                                               for i, _ in enumerate(e['hs'])]
             for e in cfg['handlers']}
-    d = pjrpc.server.AsyncDispatcher(**kwargs)
+    via = c.get('via')
+    if via in ('aiohttp_app', 'aiohttp_endpoint'):
+        # the dispatcher the aiohttp integration builds from the same arguments: the application's own one, or the one of an
+        # additional endpoint created on an application that was itself configured the other way round
+        from pjrpc.server.integration import aiohttp as ai
+        if via == 'aiohttp_app':
+            d = ai.Application('/api', **kwargs).dispatcher
+        else:
+            other = {'concurrent_batch': not c['concurrent']}
+            try:
+                app = ai.Application('/api', **other)
+            except TypeError:
+                app = ai.Application('/api')
+            d = app.add_endpoint('/sub', **kwargs)
+    else:
+        d = pjrpc.server.AsyncDispatcher(**kwargs)
     for m in cfg['methods']:
         if m.get('view'):
             d.registry.add_methods(pjrpc.server.dispatcher.ViewMethod(make_view(m, body_k.get(m['name'], 0)), 'vm', m['name'], None))
@@ -355,6 +370,9 @@ def generate(tier, rng):
                         c['plain_mw'] = True
                     produced += 1
                     yield c
+                    if sched is scheds[0] and len(elems) >= 2:
+                        for via in ('aiohttp_app', 'aiohttp_endpoint'):
+                            yield dict(c, via=via)
     # rejected batches and single requests under the scheduler
     for text in ('[]', '[1]', json.dumps([element('echo', True, 0), element('echo', True, 1) | {'id': 0}]),
                  json.dumps(element('slow', True, 0)), json.dumps(element('fail_exc', False, 0))):
